@@ -2,4 +2,4 @@ import SweepG
 open Sweep SweepG
 set_option maxRecDepth 100000
 -- GENERATED (see Props/C19.lean)
-theorem C19.p32_sample_shard1 : allRangeTR (1073741824 + 1 * 8388608) 8388608 sample32Ok = true := by native_decide
+theorem C19.p32_sample_shard1 : allRangeTR (1073741824 + 1 * 8388608) 8388608 sample32SubOk = true := by native_decide
